@@ -135,7 +135,50 @@ func (c *C16Case) busyFor(i int) int {
 	return c.Busy[i]
 }
 
+// stallWatch measures how late this process gets the CPU while a case runs: a goroutine sleeps 5 ms at a time and records
+// the largest overshoot. A verdict that rests on a duration of the order of a second is only drawn when the machine was not
+// that late itself (a time limit that is hit on a starved machine is inconclusive, never a violation).
+type stallWatch struct {
+	stop chan struct{}
+	done chan struct{}
+	max  int64 // ns
+}
+
+func newStallWatch() *stallWatch {
+	w := &stallWatch{stop: make(chan struct{}), done: make(chan struct{})}
+	go func() {
+		defer close(w.done)
+		for {
+			t0 := time.Now()
+			select {
+			case <-w.stop:
+				return
+			case <-time.After(5 * time.Millisecond):
+			}
+			if over := int64(time.Since(t0) - 5*time.Millisecond); over > atomic.LoadInt64(&w.max) {
+				atomic.StoreInt64(&w.max, over)
+			}
+		}
+	}()
+	return w
+}
+
+func (w *stallWatch) Stop() time.Duration {
+	close(w.stop)
+	<-w.done
+	return time.Duration(atomic.LoadInt64(&w.max))
+}
+
 func checkC16(c C16Case) (nontrivial bool, v *Violation) {
+	sw := newStallWatch()
+	lateness := time.Duration(-1)
+	late := func() time.Duration {
+		if lateness < 0 {
+			lateness = sw.Stop()
+		}
+		return lateness
+	}
+	defer late()
 	ledDeviceNoLogs = !c.Logs
 	defer func() { ledDeviceNoLogs = true }()
 	classifyIf(c.Logs, "devices with logging on")
@@ -379,6 +422,10 @@ func checkC16(c C16Case) (nontrivial bool, v *Violation) {
 	}
 	// (2) prompt termination
 	for i := range res {
+		if res[i].returnedIn > time.Second && res[i].returnedIn <= 3*time.Second && late() > 150*time.Millisecond {
+			classify("a return time between 1 and 3 s on a machine that was itself late by more than 150 ms: inconclusive")
+			continue
+		}
 		if c.Server != "" && c.Server != "mute" && !c.NoServer && res[i].returnedIn > time.Second {
 			return true, violation("C16", "no-prompt-termination", "discovery-"+c.Server, "device %d of %d (OpenRGB server state %q, LED goroutine still looking for its controller): ProcessEvents needed %v to return after its event stream ended", i, n, c.Server, res[i].returnedIn)
 		}
@@ -447,6 +494,14 @@ func checkC16(c C16Case) (nontrivial bool, v *Violation) {
 		}
 	}
 	classify(fmt.Sprintf("%d concurrent devices", n))
+	switch l := late(); {
+	case l > 150*time.Millisecond:
+		classify("machine late by more than 150 ms during the case (second-scale timing verdicts not drawn)")
+	case l > 50*time.Millisecond:
+		classify("machine late by 50-150 ms during the case")
+	default:
+		classify("machine late by less than 50 ms during the case")
+	}
 	runtime.GC()
 	return nontrivial, nil
 }
@@ -598,13 +653,42 @@ func checkC16Stall(c C16StallCase) (nontrivial bool, v *Violation) {
 	curRun.Inflight(c)
 	defer curRun.InflightDone()
 	ld := startLedDevice(config.DeviceConfig{ConfigFile: "verif.toml", ConfigType: "user", Config: cfg}, c.D, "event5", 0, srv.Port, make(chan midi.Event))
-	select {
-	case <-srv.Stalled():
-	case p := <-ld.done:
-		return true, violation("C16", "panic", "", "device ended unexpectedly: %s", p)
-	case <-time.After(15 * time.Second):
+	// the server stops reading after StallAfter frames. A loop that repeats its frame every cycle gets there by itself within
+	// a second; one that only sends when the picture changes needs the picture to change: after 1.5 s the keys of the history
+	// are played until the server has seen enough frames
+	waitStall := time.Now().Add(15 * time.Second)
+	stalled := false
+	for k := 0; !stalled && time.Now().Before(waitStall); k++ {
+		wait := 20 * time.Millisecond
+		if k == 0 {
+			wait = 1500 * time.Millisecond
+		}
+		select {
+		case <-srv.Stalled():
+			stalled = true
+		case p := <-ld.done:
+			return true, violation("C16", "panic", "", "device ended unexpectedly: %s", p)
+		case <-time.After(wait):
+			if len(c.Hist) > 0 {
+				if st := c.Hist[k%len(c.Hist)]; st.T == "key" {
+					select {
+					case ld.in <- &input.InputEvent{Source: handlerFor(&ld.inDev, ""), Event: evdev.InputEvent{Type: evdev.EV_KEY, Code: evdev.EvCode(st.Code), Value: st.Val}}:
+					case <-time.After(2 * time.Second):
+					}
+				}
+			}
+		}
+	}
+	if !stalled {
+		// not a verdict: this implementation sends too few frames for the server to hang in the middle of LED traffic
+		classify("fewer frames than the stall point within 15 s: case not applicable")
 		close(ld.in)
-		return false, violation("C16", "harness", "no-frames", "the LED loop did not send %d frames within 15 s", c.StallAfter)
+		select {
+		case <-ld.done:
+		case <-time.After(10 * time.Second):
+			return true, violation("C16", "no-prompt-termination", "few-frames", "ProcessEvents had not returned 10 s after the device's event stream ended\n%s", firstLines(allStacks(), 120))
+		}
+		return false, nil
 	}
 	// key events keep coming; an event the device does not take within 2 s ends this phase (the verdict is about the end)
 	deadline := time.Now().Add(time.Duration(c.KeepMs) * time.Millisecond)
